@@ -269,6 +269,97 @@ fn build_zone(cyc: &Cycle, times: &[i64], idx: &[usize], leap_variant: u8, rule_
     z
 }
 
+/// zones with more local time types than a TZif file can carry (the constructors do not limit them): K types with pairwise
+/// different offsets, transitions that visit every type, and neighbours whose indices agree modulo 256 / 128 / 64
+fn sweep_many_types(cyc: &Cycle, rec: &Recorder, thorough: bool) -> Tally {
+    let ks: &[usize] = if thorough { &[255, 256, 257, 258, 300, 511, 512, 513, 600, 1025] } else { &[256, 257, 300, 513] };
+    let mut work = vec![];
+    for &k in ks {
+        for stride in [1usize, 255, 256, 257, 128, 64] {
+            for rule_kind in 0..2u8 {
+                work.push((k, stride, rule_kind));
+            }
+        }
+    }
+    let t = work
+        .par_iter()
+        .map(|&(k, stride, rule_kind)| {
+            let mut tl = Tally::default();
+            let r = guard(|| {
+                let mut t2 = Tally::default();
+                let types: Vec<MType> = (0..k).map(|i| MType::new(60 * i as i32 - 43200, i % 3 == 1, Some(&format!("T{:04}", i)))).collect();
+                let n = k + 7;
+                let trans: Vec<(i64, usize)> = (0..n).map(|i| (400_000_000 + 86_400 * i as i64, (1 + i * stride) % k)).collect();
+                let rule = if rule_kind == 1 { Some(MRule::Fixed(types[trans[n - 1].1])) } else { None };
+                let z = MZone { trans, types, leaps: vec![], rule };
+                let probes = probes_for(&z);
+                check_zone(cyc, &z, &probes, rec, "many_types", &mut t2);
+                t2
+            });
+            match r {
+                Ok(t2) => tl = tl.merge(t2),
+                Err(m) => rec.violation("many_types", json!({"kind":"many_types","k":k,"stride":stride,"rule":rule_kind}), json!("no panic"), json!(m)),
+            }
+            tl
+        })
+        .reduce(Tally::default, Tally::merge);
+    rec.sub("many_types", json!({"zones": t.zones, "lookups": t.evals, "type_counts": ks}));
+    t
+}
+
+/// every +-1 walk of the cumulative correction (length 1..=L) with records 28 days apart, crossed with transitions that sit
+/// on a record's time, one second before or one second after it (on the count scale), every assignment of the three positions
+fn sweep_leap_walks(cyc: &Cycle, rec: &Recorder, thorough: bool) -> Tally {
+    let max_len: u32 = if thorough { 6 } else { 4 };
+    let mut work = vec![];
+    for len in 1..=max_len {
+        for signs in 0..(1u32 << len) {
+            for deltas in 0..3u32.pow(len) {
+                work.push((len, signs, deltas));
+            }
+        }
+    }
+    let base = 400_000_000i64;
+    let t = work
+        .par_iter()
+        .map(|&(len, signs, deltas)| {
+            let mut tl = Tally::default();
+            let r = guard(|| {
+                let mut t2 = Tally::default();
+                let mut leaps = vec![];
+                let mut c = 0i32;
+                for k in 0..len {
+                    c += if signs & (1 << k) != 0 { 1 } else { -1 };
+                    leaps.push((base + DAY28 * k as i64, c));
+                }
+                let mut d = deltas;
+                let trans: Vec<(i64, usize)> = (0..len)
+                    .map(|k| {
+                        let dl = (d % 3) as i64 - 1;
+                        d /= 3;
+                        (base + DAY28 * k as i64 + dl, (k as usize + 1) % 3)
+                    })
+                    .collect();
+                for rule_kind in 0..2u8 {
+                    let types = base_types();
+                    let rule = if rule_kind == 1 { Some(MRule::Fixed(types[trans[trans.len() - 1].1])) } else { None };
+                    let z = MZone { trans: trans.clone(), types, leaps: leaps.clone(), rule };
+                    let probes = probes_for(&z);
+                    check_zone(cyc, &z, &probes, rec, "leap_walks", &mut t2);
+                }
+                t2
+            });
+            match r {
+                Ok(t2) => tl = tl.merge(t2),
+                Err(m) => rec.violation("leap_walks", json!({"kind":"leap_walks","len":len,"signs":signs,"deltas":deltas}), json!("no panic"), json!(m)),
+            }
+            tl
+        })
+        .reduce(Tally::default, Tally::merge);
+    rec.sub("leap_walks", json!({"zones": t.zones, "lookups": t.evals, "max_walk_len": max_len}));
+    t
+}
+
 pub fn run(args: &Args) -> i32 {
     let rec = Recorder::new(args, "exploration");
     let cyc = Cycle::build();
@@ -365,7 +456,7 @@ pub fn run(args: &Args) -> i32 {
         })
         .reduce(Tally::default, Tally::merge);
     rec.sub("corpus", json!({"distinct_corpus_zones": zones.len(), "files_not_expressible_in_the_model": skipped, "zones_checked": ct.zones, "lookups": ct.evals}));
-    let total = total.merge(ct);
+    let total = total.merge(ct).merge(sweep_many_types(&cyc, &rec, thorough)).merge(sweep_leap_walks(&cyc, &rec, thorough));
     rec.sub("table", json!({"shapes": work.len(), "zones": total.zones, "zones_refused_as_model_predicts": total.rejected, "lookups": total.evals, "max_table_len": max_n, "all_index_sequences_up_to_len": all_seq_n}));
     rec.add(total.evals, total.nontrivial);
     rec.digest("table", total.digest);
